@@ -28,11 +28,13 @@ pub struct Case {
     pub order: Vec<usize>,
     /// drain after every arrival instead of once at the end
     pub drain_each: bool,
+    /// tick budget of the sender (a message larger than it leaves over several ticks)
+    pub bytes_per_tick: u64,
 }
 
 fn cfg_for(c: &Case) -> LinkCfg {
     let mut cfg = LinkCfg::base(&c.name, chans(), chans());
-    cfg.bytes_per_tick = 1_000_000;
+    cfg.bytes_per_tick = if c.bytes_per_tick == 0 { 1_000_000 } else { c.bytes_per_tick };
     cfg.script = c.msgs.iter().map(|&(ch, len)| Send::at(0, c.dir, ch, len)).collect();
     cfg
 }
@@ -45,6 +47,7 @@ fn batch_len(dir: usize, msgs: &[(u8, usize)]) -> usize {
         msgs: msgs.to_vec(),
         order: vec![],
         drain_each: false,
+        bytes_per_tick: 0,
     };
     let cfg = cfg_for(&c);
     let mut l = Link::new(&cfg);
@@ -218,7 +221,8 @@ pub fn run_case(c: &Case, log: Option<&mut Vec<String>>) -> (u64, Option<Violati
         for p in f2..l.emitted.len() {
             l.deliver(1 - c.dir, p)?;
         }
-        for _ in 0..6 {
+        let tail = if c.bytes_per_tick == 0 { 6 } else { 6 + (c.msgs.iter().map(|m| m.1).sum::<usize>() as u64 / c.bytes_per_tick) as usize * 2 };
+        for _ in 0..tail {
             l.lockstep_tick(100)?;
             check(&l, false)?;
         }
@@ -311,6 +315,7 @@ pub fn cases(tier: Tier) -> Vec<Case> {
                             msgs: msgs.clone(),
                             order: o.clone(),
                             drain_each: de,
+                            bytes_per_tick: 0,
                         });
                     }
                 }
@@ -335,8 +340,30 @@ pub fn cases(tier: Tier) -> Vec<Case> {
                             msgs: msgs.clone(),
                             order: o,
                             drain_each: false,
+                            bytes_per_tick: 0,
                         });
                     }
+                }
+            }
+        }
+    }
+    // (a'') messages larger than the sender's tick budget leave over several ticks (send rounds that stop
+    // in the middle of a message), with the first tick's batch permuted / duplicated / thinned as above
+    for dir in 0..2 {
+        for ch in 1..3u8 {
+            for (len, budget) in [(6000usize, 2400u64), (3601, 1200), (25_201, 6000), (7300, 3600)] {
+                let msgs = vec![(ch, len), (ch, 1)];
+                // the first batch has budget / 1200 slices
+                let n = (budget / 1200) as usize;
+                for o in orders(n, perm_limit) {
+                    out.push(Case {
+                        name: format!("budget-limited {} B at {} B per tick ch{} dir{}", len, budget, ch, dir),
+                        dir,
+                        msgs: msgs.clone(),
+                        order: o,
+                        drain_each: false,
+                        bytes_per_tick: budget,
+                    });
                 }
             }
         }
@@ -358,6 +385,7 @@ pub fn cases(tier: Tier) -> Vec<Case> {
                         msgs: msgs.clone(),
                         order: o,
                         drain_each: false,
+                        bytes_per_tick: 0,
                     });
                 }
             }
@@ -378,6 +406,7 @@ pub fn cases(tier: Tier) -> Vec<Case> {
                     msgs: msgs.clone(),
                     order: o,
                     drain_each: false,
+                    bytes_per_tick: 0,
                 });
             }
         }
